@@ -113,12 +113,14 @@ def build(topo: dict) -> World:
     bws = list(topo["bw"])
 
     def host(name, ip, gw=None):
+        up_d, down_d = topo.get("dur", {}).get(name, [0, 0])   # boot / shutdown countdowns (ticks) of this host
         cfg = {"type": "computer", "hostname": name, "ip_address": ip, "subnet_mask": "255.255.255.0", "start_up_duration": 0,
                "shut_down_duration": 0}
         if gw:
             cfg["default_gateway"] = gw
         c = Computer.from_config(config=cfg)
         c.power_on()
+        c.config.start_up_duration, c.config.shut_down_duration = up_d, down_d     # built ON at once; later transitions take ticks
         net.add_node(c)
         w.nodes[name] = c
         w.hosts.append(name)
@@ -540,6 +542,11 @@ class Recorder:
                         l = rec.w.links[where[0]]
                         other = l.endpoint_b if where[1] else l.endpoint_a
                         att["enR0"] = bool(other.enabled)
+                        try:    # power state of the two end nodes at the moment of the attempt (coverage of transitional states)
+                            att["nodeS"] = iface._connected_node.operating_state.name
+                            att["nodeR"] = other._connected_node.operating_state.name
+                        except Exception:
+                            pass
                         att["load0"] = rec._wired_load(where[0])
                     else:
                         att["load0"] = rec._air_load(where[0])
@@ -945,6 +952,10 @@ def apply_op(w: World, op: list, t: List[int]):
     elif kind == "nic":
         iface = w.ifaces[op[1]]
         (iface.enable if op[2] == "enable" else iface.disable)()
+    elif kind == "nicreq":
+        # the same through the request interface of the node (what an agent's action does): ["network_interface", n, "enable"|"disable"]
+        host_name, num = op[1].split(":")
+        w.nodes[host_name].apply_request(["network_interface", int(num), op[2]])
     elif kind == "trip":
         # payload to the tripwire service on the target host: it toggles an interface during the delivery
         w.nodes[op[1]].software_manager.send_payload_to_session_manager(
@@ -1686,6 +1697,24 @@ def gen_case(rng: Rng, max_ops: int = 14) -> dict:
             ops += trip_ops(rng, topo, hosts)
         else:
             ops.append(["ping", a, b, 1])
+    if kind != "wireless" and rng.chance(1, 6):
+        # family "power transitions": a host with boot / shutdown countdowns is powered off and on again; in EVERY tick of the
+        # countdowns traffic is sent to it and from it, its interface is asked to come up (method and request: refused while the
+        # node is not ON), and once it is back an interface is disabled by request in the same tick as the traffic that follows
+        a = rng.choice(hosts)
+        b = rng.choice([h for h in hosts if h != a])
+        topo["dur"] = {a: [rng.range(0, 3), rng.range(0, 3)]}
+        fam: List[list] = [["tick"], ["ping", a, b, 1], ["power", a, "off"], ["ping", b, a, 1]]
+        for _ in range(topo["dur"][a][1] + 1):
+            fam += [["tick"], ["ping", b, a, 1], rng.choice([["nic", f"{a}:1", "enable"], ["nicreq", f"{a}:1", "enable"]]),
+                    ["ping", a, b, 1], ["burst", b, a, rng.choice([0, 100]), 1], ["burst", a, b, 0, 1]]
+        fam += [["power", a, "on"], ["ping", b, a, 1]]
+        for _ in range(topo["dur"][a][0] + 1):
+            fam += [["tick"], ["ping", a, b, 1], ["nicreq", f"{a}:1", "enable"], ["ping", b, a, 1], ["burst", a, b, 0, 1]]
+        fam += [["tick"], ["ping", a, b, 1], ["nicreq", f"{rng.choice([a, b])}:1", "disable"], ["ping", a, b, 1], ["ping", b, a, 1]]
+        at = rng.below(len(ops) + 1)
+        ops[at:at] = fam
+        topo["power_family"] = True
     if kind == "wireless" and ALT_NAME in topo["freqs"] and "WIFI_2_4" in topo["freqs"] and rng.chance(3, 4):
         # family "aliased channel": ONE physical channel (hz) used under two frequency names by different access points; in one tick
         # first the access points of one name, then those of the other, each burst well within the capacity of its own name and
